@@ -109,6 +109,18 @@ void h_b_edit(void)
                 SF(insert)(&s, pos, &t);
                 vf_ref_insert(pos, vf_words[v], vl);
                 vf_check(&s);
+                if (v == 1) {
+                    /* a source string whose valid characters include a NUL (grown by resize):
+                     * all of its size() characters are inserted, not just the part before the NUL */
+                    vf_ch withnul[3] = { CH('a'), 0, 0 };
+                    SF(resize)(&t, 2);
+                    SF(insert)(&s, pos, &t);
+                    vf_ref_insert(pos, withnul, 2);
+                    vf_check(&s);
+                    SF(erase)(&s, pos, 2); vf_ref_erase(pos, 2);
+                    vf_check(&s);
+                    SF(set_str)(&t, vf_words[v]);
+                }
                 SF(insert_str_n)(&s, pos, vf_words[3], 2);
                 vf_ref_insert(pos, vf_words[3], 2);
                 vf_check(&s);
